@@ -324,7 +324,30 @@ def chk_init_round(inp):
     return None
 
 
-CHECKS = dict(roundtrip=chk_roundtrip, jacobian=chk_jacobian, mh_ratio=chk_mh_ratio, likelihood=chk_likelihood, warton=chk_warton,
+def chk_propagate(inp):
+    """proposal = back-transform of a Gaussian step around the transformed current state (same RandomState stream)"""
+    BSL, _, _ = _mods()
+    th = np.array(inp['theta_cur'], dtype=float)
+    p = th.size
+    me = make_sampler(3, p, inp.get('bound'), seed=inp.get('seed', 0))
+    me.state['n_samples'] = 1
+    me.state['params'][0] = th
+    st, got = _call(me._propagate_state)
+    if st != 'ok':
+        return '_propagate_state raised %s' % got
+    rs = np.random.RandomState(inp.get('seed', 0))
+    if inp.get('bound') is None:
+        want = rs.multivariate_normal(th, me.sigma_proposals)
+    else:
+        b = np.array(inp['bound'], dtype=float)
+        want = BSL._para_logit_back_transform(rs.multivariate_normal(BSL._para_logit_transform(th, b), me.sigma_proposals), b)
+    got = np.asarray(got, dtype=float)
+    if got.shape != (1, p) or not np.allclose(got[0], want, rtol=1e-10, atol=1e-12):
+        return 'proposal %s, stated %s' % (got.tolist(), np.asarray(want).tolist())
+    return None
+
+
+CHECKS = dict(propagate=chk_propagate, roundtrip=chk_roundtrip, jacobian=chk_jacobian, mh_ratio=chk_mh_ratio, likelihood=chk_likelihood, warton=chk_warton,
               wcon=chk_wcon, process=chk_process, init_round=chk_init_round)
 
 
@@ -361,6 +384,7 @@ def gen_cases(tier, seed):
                 th2.append(lo + w * rs.uniform(0.05, 0.95) if t == 0 else (lo + w - rs.uniform(0.1, 3) if t == 1 else (lo + rs.uniform(0.1, 3) if t == 2 else rs.uniform(-3, 3))))
             yield 'mh_ratio', dict(kind='mh_ratio', types=list(types), bound=b.tolist(), theta_new=[float(v) for v in th], theta_cur=[float(v) for v in th2],
                                    post_new=float(rs.uniform(-5, 0)), post_cur=float(rs.uniform(-5, 0))), True
+            yield 'propagate', dict(kind='propagate', types=list(types), bound=b.tolist(), theta_cur=[float(v) for v in th2], seed=int(rs.randint(1000))), True
             yield 'process', dict(kind='process', types=list(types), bound=b.tolist(), theta_new=[float(v) for v in th], theta_cur=[float(v) for v in th2],
                                   loglik=float(rs.uniform(-4, 0)), lprior_new=float(rs.uniform(-2, 0)), lprior_cur=float(rs.uniform(-2, 0)),
                                   post_cur=float(rs.uniform(-6, 0)), seed=int(rs.randint(1000)), n=1), True
@@ -368,6 +392,10 @@ def gen_cases(tier, seed):
         th, th2 = rs.randn(2).tolist(), rs.randn(2).tolist()
         yield 'mh_ratio', dict(kind='mh_ratio', bound=None, theta_new=th, theta_cur=th2, post_new=float(rs.uniform(-5, 0)), post_cur=float(rs.uniform(-5, 0))), False
         yield 'mh_ratio', dict(kind='mh_ratio', bound=None, theta_new=th, theta_cur=th2, post_new=float(rs.uniform(800, 900)), post_cur=0.0), True
+        for big in (30.0, 100.0, 650.0, 699.0, 701.0):
+            yield 'mh_ratio', dict(kind='mh_ratio', bound=None, theta_new=th, theta_cur=th2, post_new=big, post_cur=0.0), True
+            yield 'mh_ratio', dict(kind='mh_ratio', bound=None, theta_new=th, theta_cur=th2, post_new=-big, post_cur=0.0), True
+        yield 'propagate', dict(kind='propagate', bound=None, theta_cur=th2, seed=int(rs.randint(1000))), False
         yield 'process', dict(kind='process', bound=None, theta_new=th, theta_cur=th2, loglik=float(rs.uniform(-4, 0)), lprior_new=-1.0, lprior_cur=-1.5,
                               post_cur=float(rs.uniform(-6, 0)), seed=int(rs.randint(1000)), n=1), True
     yield 'process', dict(kind='process', bound=None, theta_new=[0.1], theta_cur=[0.2], loglik=-1.0, lprior_new=-1.0, lprior_cur=0.0, post_cur=0.0, seed=1, n=0), False
@@ -409,7 +437,7 @@ def gen_cases(tier, seed):
             yield 'wcon', dict(kind='wcon', k=kk, nu=nu), True
 
 
-SIG = {'transform': 'c20:transform-roundtrip', 'jacobian': 'c20:jacobian', 'mh_ratio': 'c20:mh-ratio', 'process': 'c20:process-simulated',
+SIG = {'propagate': 'c20:propagate', 'transform': 'c20:transform-roundtrip', 'jacobian': 'c20:jacobian', 'mh_ratio': 'c20:mh-ratio', 'process': 'c20:process-simulated',
        'init_round': 'c20:init-round', 'cov_warton': 'c20:cov-warton', 'wcon': 'c20:wcon'}
 
 
@@ -426,6 +454,10 @@ def run(tier='quick', seed=0):
             if inp['kind'] == 'likelihood':
                 d = len(inp['y'])
                 sig += ':d=1' if d == 1 else ':d>=2'
+                if inp['which'] == 'go' and d > 1:
+                    sig += ':psi-not-positive-definite' if 'stated formula = -inf' in what else ':offset'
+            elif inp['kind'] == 'process' and 'NINF' in what:
+                sig += ':np.NINF'
             elif 'types' in inp and name in ('jacobian', 'mh_ratio', 'process'):
                 sig += ':upper-only' if 1 in inp['types'] else ':other'
             if sig not in g['_seen']:
